@@ -1181,6 +1181,8 @@ def run(chk, replay=None):
             while a == b or c == d or b * d == a * c:
                 b, d = rq(), rq()
             hyper_case('start', a, b, c, d, Fraction(1), Fraction(1), i % 2 == 1, {'causal': True})
+        # matched source (a == b: reflection coefficient at the source end is zero): a single echo
+        hyper_case('start', Fraction(1), Fraction(1), Fraction(rng.choice([3, 5])), Fraction(rng.choice([1, 4])), Fraction(2), Fraction(1), False, {'causal': True})
 
     def shift_case(a, b):
         """V(a*s + b): func() -> v(t/a) e^{-b t/a}/a; judged with a concrete v"""
